@@ -82,6 +82,34 @@ CHECKS['C07'] = dict(
     technique="TLA+ set-level specification of constraint soundness, TLC-enumerated label vectors replayed into code, TLC trace validation",
     ref="DESIGN.md section 5 C07")
 
+CHECKS['C17'] = dict(
+    text=("The life-cycle machine spec/MetricLearn.tla is the property: TLC exhausts it for small constants (invariants "
+          "NfeatOfLastFit, ThresholdNeedsFit, FitThresholdIsCurrent; action properties OnlyFitChangesModel, "
+          "OnlyThreeActionsChangeThreshold, OnlySetParamsChangesParams, HandlesImmutable, FitIsHistoryIndependent) and "
+          "simulates long behaviours over New/SetParams/Clone/Pickle/Fit/SetThreshold/Calibrate/Query/GetMetric/"
+          "GetMatrix/Mutate/CallHandle; each behaviour is executed on real objects of all 17 classes and the recorded "
+          "history is validated by TR_Lifecycle, which consumes every event with the same TLA+ action and compares "
+          "the logged digests of get_params(), components_, threshold_, n_features_in_ of EVERY live object, of every "
+          "caller-owned array (data, labels, init/prior/basis/weights/bounds/preprocessor arrays) and of each output "
+          "with the value of the abstract term, defined by reference executions on fresh objects."),
+    note=("Equality is on bytes (same process, single-threaded BLAS). Exhaustive for 2 objects/2 parameter settings/2 "
+          "data sets to depth 5 (6); simulation depth 14 (22) beyond. Reference values come from a separately "
+          "constructed identical world."),
+    technique="TLA+ life-cycle state machine, TLC exhaustive + simulated behaviours replayed into code, TLC trace validation with the same actions",
+    ref="DESIGN.md section 5 C17")
+CHECKS['C18'] = dict(
+    text=("MC_Params (parameter store round-trip) and MC_Lifecycle are exhausted by TLC; for every estimator and every "
+          "constructor parameter (names read with inspect.signature at run time) x value kinds {scalar, array, "
+          "callable, None, list} construct / get_params / set_params sequences are recorded with object identity as "
+          "tokens and validated by TR_Params (stored untouched, identical objects returned); deprecated aliases "
+          "(FutureWarning, model equal to the replacement's), every public method on a fresh object (NotFittedError); "
+          "TLC-simulated histories with clone / pickle / set_params are validated by TR_Lifecycle (params digest of "
+          "every object after every call; clone-then-fit and pickled outputs bit for bit against fresh references)."),
+    note=("A constructor that rejects a value (LFDA validates embedding_type) stores nothing and is not judged; the "
+          "deprecated-alias table is the only hand-written part."),
+    technique="TLA+ parameter-store and life-cycle models, TLC trace validation of recorded parameter round-trips and histories",
+    ref="DESIGN.md section 5 C18")
+
 NOT_YET = {}
 
 def main():
